@@ -1,4 +1,6 @@
-// vec![e; n] (macro M3) in units that do not decide the C09 allocation bound: no budget precondition
+// vec![e; n] (macro M3) in units that do not decide the C09 allocation bound: the budget is astronomically large,
+// so the `<= alloc_budget()` preconditions on decoder entry points are trivially true here
+pub open spec fn alloc_budget() -> nat { 0xffff_ffff_ffff_ffff_ffff_ffff }
 #[verifier::external_body]
 pub fn alloc_fill_v(e: u8, n: usize) -> (r: Vec<u8>)
     ensures r@ == filled(e, n as nat)
